@@ -34,6 +34,25 @@ def check_protocol(ck, R):
     okw = set(parent_reads) <= set(written)
     ck.ob(R, fa.key(pif, "written-is-read"), okw, "a parent is read through %s, which store() records on every serialised partition" % parent_reads if okw else
           "a merge parent is read through %s but store() records %s: an already-serialised partition cannot serve as parent" % (parent_reads, written), fa.where(pif))
+    # what is remembered for later use as a parent is the MERGED index (the one that is serialised):
+    # remembering only the partition's own keys drops the grandparents' keys from a chain whose
+    # middle element is still the in-memory object
+    ser = [c for c in fa.calls("_serialize_index")]
+    rec = [(a, s_) for (a, s_, g) in remember if a in parent_reads and "keys" in a or a == "_output_keys"]
+    if ser and rec:
+        merged = A.norm(ser[0].args[0]) if ser[0].args else None
+        for (a, s_) in rec:
+            okm = A.norm(s_.value) == merged
+            ck.ob(R, fa.key(s_, "remembers-merged-index"), okm,
+                  "obj.%s records the merged index that is serialised" % a if okm else
+                  "obj.%s records `%s` (own keys only) while `%s` is what is serialised: a child of this still-in-memory partition inherits "
+                  "only its own keys, the grandparent's keys are silently dropped from the stored child" % (a, A.norm(s_.value), merged), fa.where(s_))
+    # the merged index is a fresh mapping, never an alias of a parent's live index
+    idx_defs = [s_ for s_ in fa.stmts(ast.Assign) if any(isinstance(t, ast.Name) and ser and t.id == A.norm(ser[0].args[0]) for t in s_.targets)]
+    okfresh = bool(idx_defs) and all(A.norm(s_.value) in ("dict()", "{}") for s_ in idx_defs)
+    ck.ob(R, fa.key(None, "index-is-fresh"), okfresh, "the merged index starts as a fresh dict" if okfresh else
+          "the merged index is not a fresh dict (%s): building it in place mutates the parent partition object that the cache keeps serving"
+          % [A.norm(s_.value) for s_ in idx_defs], fa.where())
     g_rem = remember[0][2]
     for cls in PM.partition_classes(ck):
         if cls.qual == PM.PICKLE_PARTITION:
